@@ -231,9 +231,9 @@ pub fn property() -> Property {
                 rule: "generated expression (1-4 rules, all selector kinds; half of them 'dense' = few selector kinds so that rules interact) x generated PH/SH calendars x 12 expression-aware dates (selector bounds after offsets +-0/1/2/7 days, Easter, month ends, ISO-week Mondays, nth weekdays, holidays, leap days, year ends, week-53 years, 1900/9999 edges, uniform) : schedule_at flattened to 1440 kinds and state() at 3 minutes vs the reference model, on the decided domain (2.4); non-trivial = a rule with a day selector applied on the day or the day before and (the expression has >= 2 rules or a span spilled from the previous day)",
                 f: semantics,
                 text_f: Some(semantics_text),
-                cases_quick: 160_000,
+                cases_quick: 300_000,
                 cases_thorough: 600_000,
-                max_choices: 320,
+                max_choices: 440,
             },
             SubCheck {
                 name: "sweep",
